@@ -23,6 +23,9 @@ CHECKS = {
  "C14": ("exploration", "request-log monitor at recording model registries (per-digest download/upload/mount counters) + directory fingerprint for layouts",
          "1.2 k fault-free default-option copies per quick run with arbitrary layer/config sharing, every pre-state class and pairing; each minimality clause (no download of pre-existing blobs, each blob at most once, mount instead of transfer, retag = 1 manifest PUT and no blob traffic, identical target = no write) is judged on the registries' request logs; a run is inconclusive if a clause was never applicable.",
          "Only fault-free default-option runs are judged. A blob GET counts as a download when answered 200/206 with a body.", "§3 C14"),
+ "C05": ("exploration", "destination-side byte assembly monitor: committed bytes / layout file vs the caller's bytes over hostile-but-conforming upload servers",
+         "12 k uploads per quick run (200 k thorough) over blob lengths on every chunk boundary x declared descriptor (absent / correct / wrong digest / short / long / size-only / digest-only) x source kinds x chunk / max-put settings (per host and client wide) x server behaviours inside the distribution spec (chunk minimum advertised and enforced, mounts, partial acknowledgement at any offset in two styles, early 201, four upload-URL relocation styles, monolithic PUT refused, one transient fault at any request); after every nil return the bytes the destination assembled are compared with the source bytes; declared mismatches must fail and leave nothing under the declared digest; well-formed uploads must succeed.",
+         "The destination model is harness code in conforming mode (refuses out-of-order chunks with 416+Range, refuses truncated request bodies, verifies the digest at commit). Excluded from must-succeed: non-seekable sources after a refusal/fault, first chunk lost before anything was stored (Range: 0-0 ambiguity), server minimum above the client's limit.", "§3 C05"),
 }
 NOT_APPLICABLE = {}
 
